@@ -35,7 +35,8 @@ func (c05) Info(tier string) fw.Info {
 			"single-token edits (delete/duplicate/swap/replace) of corpus programs, nesting towers of depth 10/100/1000 for every recursive construct, semantically odd programs, " +
 			"single-character edits of small programs, lexemes the lexer rejects (illegal characters, lonely ~, broken escapes, unterminated literals) at every token boundary of a construct catalogue and at sampled boundaries of corpus programs, " +
 			"all 0..2-tuples (ordered pairs incl. duplicates) plus sampled longer tuples of elements of every list-like construct (parameters, object type/literal fields, import lists, capabilities, impl methods, match arms, top-level items, block statements, call arguments, list elements) in every context, " +
-			"every operator/cast/suffix over every operand kind; each run as entry module and as imported module text. non-trivial = the input is non-empty and the lexer hook observed at least one NextToken call; " +
+			"every operator/cast/suffix over every operand kind, pairs of type/value towers (option, list, object, function types; equal and different innermost types) meeting in every type-checking context incl. the growth oracle, " +
+			"every statement kind with resolvable names (trigger, spawn, return, break, assignment to globals/singletons, calls) in every kind of body (function, event function, function literal, nested literal, global initializer, impl method, loop, match/try arm, unclosed); each run as entry module and as imported module text. non-trivial = the input is non-empty and the lexer hook observed at least one NextToken call; " +
 			"distinct = distinct (input bytes, mode)",
 		Assumptions: []string{
 			"inputs are limited to 64 KiB and nesting depth 1000 as stated by the property",
@@ -60,9 +61,38 @@ type c05Payload struct {
 type growthSpec struct {
 	Pre, Open, Mid, Close, Post string
 	D                           int
+	// Tmpl/Tw (pair towers, families2.go): a program template in which §0, §1, … stand for towers
+	// of the same depth; when Tmpl is set the single-tower fields above are unused.
+	Tmpl string     `json:"Tmpl,omitempty"`
+	Tw   []towerTri `json:"Tw,omitempty"`
+}
+
+// towerTri is one tower: Open^d Mid Close^d.
+type towerTri struct{ Open, Mid, Close string }
+
+func (t towerTri) text(d int) string {
+	return strings.Repeat(t.Open, d) + t.Mid + strings.Repeat(t.Close, d)
+}
+
+func (g growthSpec) label() string {
+	if g.Tmpl == "" {
+		return g.Open + "…" + g.Close
+	}
+	parts := make([]string, len(g.Tw))
+	for i, t := range g.Tw {
+		parts[i] = t.Open + t.Mid + t.Close
+	}
+	return strings.Join(parts, " vs ") + " in " + g.Tmpl
 }
 
 func (g growthSpec) text(d int) string {
+	if g.Tmpl != "" {
+		s := g.Tmpl
+		for i, t := range g.Tw {
+			s = strings.ReplaceAll(s, fmt.Sprintf("§%d", i), t.text(d))
+		}
+		return s
+	}
 	return g.Pre + strings.Repeat(g.Open, d) + g.Mid + strings.Repeat(g.Close, d) + g.Post
 }
 
@@ -365,6 +395,13 @@ func (c05) Cases(tier string, seed uint64) []fw.Case {
 	tupleCases(add, r2.Fork(), thorough)
 	importKindCases(add)
 	opTypeCases(add, thorough)
+	// (l)-(m) families2.go
+	addGrowth := func(g growthSpec) {
+		cases = append(cases, fw.MkCase(fmt.Sprintf("c05-growth-%d", n), "growth", c05Payload{Data: []byte(g.text(2 * g.D)), Gen: "growth", Growth: &g}))
+		n++
+	}
+	pairTowerCases(add, addGrowth, thorough)
+	bodyStmtCases(add, r2.Fork(), thorough)
 	sort.SliceStable(cases, func(i, j int) bool { return false })
 	return cases
 }
@@ -616,6 +653,10 @@ func (c05) Run(c fw.Case) fw.Result {
 		res.Verdict = fw.Violated
 		res.Sig = fmt.Sprintf("go-panic:%s:%s", util.NormPanic(fmt.Sprint(pv)), util.FirstFrame(stack))
 		res.Why = fmt.Sprintf("Go panic %q at %s, mode=%s input=%q", util.Clip(fmt.Sprint(pv), 200), stack, mode, util.Clip(string(p.Data), 300))
+		if len(p.Data) > 300 {
+			// long shared preludes: the distinguishing part of the input is its end
+			res.Why += fmt.Sprintf(" input-tail=%q", string(p.Data[len(p.Data)-min(len(p.Data)-300, 200):]))
+		}
 	}
 	if p.Growth != nil && res.Verdict == fw.Held {
 		// bounded work: the front end may be polynomial in the nesting depth, not exponential.
@@ -634,7 +675,10 @@ func (c05) Run(c fw.Case) fw.Result {
 		if big > 16*small+20000 {
 			res.Verdict = fw.Violated
 			res.Sig = "growth:" + p.Growth.Open + p.Growth.Mid + p.Growth.Close
-			res.Why = fmt.Sprintf("front-end work explodes with nesting depth: %d allocations at depth %d, %d at depth %d (more than 16x) for towers of %q", small, p.Growth.D, big, 2*p.Growth.D, p.Growth.Open+"…"+p.Growth.Close)
+			if p.Growth.Tmpl != "" {
+				res.Sig = "growth:" + p.Growth.label()
+			}
+			res.Why = fmt.Sprintf("front-end work explodes with nesting depth: %d allocations at depth %d, %d at depth %d (more than 16x) for towers of %q, input=%q", small, p.Growth.D, big, 2*p.Growth.D, p.Growth.label(), util.Clip(p.Growth.text(p.Growth.D), 300))
 		}
 	}
 	if p.Gen == "tower" || p.Gen == "odd" || p.Gen == "edit" {
